@@ -246,6 +246,31 @@ func solveOne(rep *FuncReport, o *Obligation, idx int, opt SolveOptions) {
 		o.Status, o.Solver, o.Model = "failed", sawSat, satOut
 		return
 	}
+	// nobody decided it: look for a small counter-model (input sizes bounded); a model of the restricted query is a
+	// model of the original one, so it is a genuine counterexample of the obligation - never used as a proof
+	if len(rep.VC.SizeHints) > 0 {
+		var hb strings.Builder
+		for _, h := range rep.VC.SizeHints {
+			hb.WriteString("(assert " + h + ")\n")
+		}
+		hunt := strings.Replace(script, "(check-sat)", hb.String()+"(check-sat)", 1)
+		hfile := strings.TrimSuffix(file, ".smt2") + ".hunt.smt2"
+		if os.WriteFile(hfile, []byte(hunt), 0o644) == nil {
+			for _, sp := range []int{1, 0} {
+				if sp >= len(solvers) {
+					continue
+				}
+				r := runSolver(solvers[sp], hfile, 8*time.Second, opt.Seeds[0])
+				o.ByWhich[solvers[sp].name+"(small)"] = r.status
+				if r.status == "sat" {
+					o.Status, o.Solver, o.Model = "failed", solvers[sp].name, r.output
+					o.SmtFile = hfile
+					return
+				}
+			}
+			os.Remove(hfile)
+		}
+	}
 	o.Status = "unknown"
 	if o.Output == "" {
 		var parts []string
